@@ -11,10 +11,12 @@ import Mathlib.Tactic.Linarith
   Proved here: preserved by every operation other than `swap` for all histories (unbounded number
   of positions, any interleaving), and by one tick crossing of the swap loop (`cross_preserves`).
   The lift of `cross_preserves` through the whole swap loop needs the specification of the
-  next-initialized-tick search (C10) and the tick/price consistency of C09: it is proved for
-  static-fee pools in WP/Props/SwapPath.lean (`swap_static`) and lifted to every reachable state in
-  WP/Props/Reach.lean (`reach`).  For adaptive-fee pools it remains the obligation `SwapPreserves`,
-  stated, not assumed, below.
+  next-initialized-tick search (C10) and the tick/price consistency of C09: it is proved (static
+  and adaptive fee) in WP/Props/SwapPath.lean (`swap_path`) and lifted to every reachable state in
+  WP/Props/Reach.lean (`reach`), under the hypothesis that the array sequence is aligned and
+  consecutive (what the loader builds).  The unconditional form `SwapPreserves` below (ANY array
+  list) is stronger than what holds — skipping an array skips its initialized ticks — and is kept
+  only as the hypothesis of the older `inv_history_partial`.
 -/
 namespace WP.C05
 open WP
